@@ -543,7 +543,7 @@ class Interp:
         ci = self.p.resolve_class_expr(node, mod)
         if ci is not None:
             return ObjStub("class " + ci.name, {r: "registry:%s.%s" % (ci.name, r) for c in self.p.mro(ci) for r in c.registries})
-        if node.id in ("abs", "len", "range", "min", "max", "float", "int", "enumerate", "zip", "round", "list"):
+        if node.id in ("abs", "len", "range", "min", "max", "float", "int", "enumerate", "zip", "round", "list", "slice"):
             return ModuleRef("builtin:" + node.id)
         raise AnalysisError("%s:%d unknown name %s" % (func.qualname, node.lineno, node.id))
 
@@ -1017,6 +1017,11 @@ class Interp:
                 return self.binary("minimum" if base == "min" else "maximum", args[0], args[1], ln)
             if base == "float":
                 return args[0]
+            if base == "slice":
+                if "builtin:slice" in self.np_hooks:
+                    return self.np_hooks["builtin:slice"](args, kwargs)
+                a3 = list(args) + [None] * (3 - len(args))
+                return slice(None, a3[0], None) if len(args) == 1 else slice(a3[0], a3[1], a3[2])
             if base in ("int", "round", "list") and ("builtin:" + base) in self.np_hooks:
                 return self.np_hooks["builtin:" + base](args, kwargs)
             if base == "list" and isinstance(args[0], (list, tuple)):
@@ -1051,6 +1056,23 @@ class Interp:
                 return b
             self.ev.where_conditions.append((ln, c))
             return self.merge(c, a, b)
+        if base in ("sum", "dot", "average", "mean") and self.stn is not None and args and any(isinstance(a, SArr) for a in args):
+            # reductions over the cell index as symbolic sums (linear; see Stn.summation)
+            cnt = getattr(self, "count_rf", None)
+            if base == "sum" and len(args) == 1 and not kwargs:
+                return self.stn.summation(args[0], cnt)
+            if base == "dot" and len(args) == 2:
+                return self.stn.summation(self.binop(ast.Mult(), args[0], args[1], node), cnt)
+            if base in ("average", "mean") and len(args) == 1:
+                w = kwargs.get("weights") if base == "average" else None
+                if set(kwargs) - {"weights"}:
+                    raise AnalysisError("%s:%d np.%s with unsupported keywords" % (func.qualname, ln, base))
+                if w is None:
+                    if cnt is None:
+                        raise AnalysisError("%s:%d unweighted mean needs the number of entries" % (func.qualname, ln))
+                    return d.div(self.stn.summation(args[0], cnt), cnt)
+                return d.div(self.stn.summation(self.binop(ast.Mult(), args[0], w, node), cnt), self.stn.summation(w, cnt))
+            raise AnalysisError("%s:%d unsupported reduction np.%s" % (func.qualname, ln, base))
         if base in ("gradient", "diff") and len(args) == 1 and isinstance(args[0], SArr) and self.stn is not None:
             # neighbour differences of a piecewise array (interior value shifted; one-sided at the ends)
             a = args[0]
